@@ -126,7 +126,7 @@ class C05(PropBase):
                    "the primitive/constructed bit of the UnbindRequest attached to client errors is not asserted (C03's subject; 62 00 is pinned "
                    "by tests/test_controls.py)",
                    "custom types registered for the run raise ValueError on malformed values (harness types, not library code)"]
-    RUNS = {"quick": 40000, "thorough": 320000}
+    RUNS = {"quick": 40000, "thorough": 160000}
     STEPS = {"quick": 90, "thorough": 140}
     REQUIRED_REACH = ("error_with_residue", "error_with_ops_outstanding", "zero_len_integer_delivered", "deep_nest_over_limit",
                       "response_forwarded_and_recognised", "bytes_to_closed_session", "victim_client", "victim_server",
@@ -149,7 +149,7 @@ class C05(PropBase):
         init.update(personality="uniform", term_p=0.0, quiesce_every=10 ** 9, odd_ints=False, huge=0.0,
                     fault_after=rng.choice([0, 1, 3, 6, 10, 16, 25, 40]), nfaults=rng.choice([1, 1, 1, 2, 4]),
                     focus=kinds[self.idx % len(kinds)],
-                    sweep=(self.idx % 128 == 0) if self.tier == "thorough" else (self.idx % 2000 == 0),
+                    sweep=(self.idx % 256 == 0) if self.tier == "thorough" else (self.idx % 2000 == 0),
                     sweep_seed=rng.getrandbits(32))
         return init
 
@@ -289,7 +289,7 @@ class C05(PropBase):
                 f["send"] = rng.choice([65536 + 9] * 4 + [262144 + 9] * 4 + [2 ** 24 - 9, 2 ** 24 + 9])
             elif kind == "request_flood":
                 # a peer that pipelines more operations than any sensible server keeps open at once (never answered here)
-                if rng.random() < 0.8:
+                if rng.random() < 0.9:
                     return None  # keep this expensive kind rare
                 to = "s"
                 f["n"] = rng.choice([1001, 1025, 1100, 2049])
